@@ -19,6 +19,27 @@ def c02_post(m, env):
     shutil.rmtree(env["params"].get("share_dir", ""), ignore_errors=True)
 
 REGISTRY = {
+    "C19": {"level": "exploration", "tiers": {
+        "quick": {"workers": 8, "n_hist": 1200, "n_neg": 64},
+        "thorough": {"workers": 16, "n_hist": 60000, "n_neg": 800}}},
+    "C14": {"level": "exploration", "tiers": {
+        "quick": {"workers": 8, "n_files": 6000},
+        "thorough": {"workers": 16, "n_files": 60000}}},
+    "C11": {"level": "exploration", "tiers": {
+        "quick": {"workers": 8, "n_hist": 640},
+        "thorough": {"workers": 16, "n_hist": 40000}}},
+    "C12": {"level": "exploration", "tiers": {
+        "quick": {"workers": 8, "n_hist": 160},
+        "thorough": {"workers": 16, "n_hist": 12000}}},
+    "C05": {"level": "exploration", "tiers": {
+        "quick": {"workers": 8, "n_hist": 320},
+        "thorough": {"workers": 16, "n_hist": 30000}}},
+    "C06": {"level": "exploration", "tiers": {
+        "quick": {"workers": 8, "n_hist": 480},
+        "thorough": {"workers": 16, "n_hist": 30000}}},
+    "C13": {"level": "exploration", "tiers": {
+        "quick": {"workers": 8, "n_hist": 480},
+        "thorough": {"workers": 16, "n_hist": 30000}}},
     "C03": {"level": "exploration", "tiers": {
         "quick": {"workers": 8, "n_hist": 480},
         "thorough": {"workers": 16, "n_hist": 30000}}},
